@@ -75,6 +75,7 @@ def strategy(tier):
       'own': st.lists(meth, min_size=1, max_size=6, unique_by=lambda m: m[0]),
       'base': st.one_of(st.none(), st.lists(meth, min_size=1, max_size=3, unique_by=lambda m: m[0])),
       'override': st.booleans(),
+      'twin': st.one_of(st.none(), st.lists(meth, min_size=1, max_size=3, unique_by=lambda m: m[0])),
       'calls': st.lists(call, min_size=1, max_size=6),
       'uri': uri,
   })
@@ -180,7 +181,25 @@ def _check_proxy(plan):
     decorated = n.startswith('_') or n.endswith('_') or (n in inherited)
     if decorated and args and kwargs:
       nontrivial = True
-  # do not let the proxy's __del__ close anything surprising later
+  # a second, different interface class with the very same module and class name (generated code, reloads)
+  twin = plan.get('twin')
+  if twin:
+    Twin = _mk_class('Iface', [list(m) for m in twin], (object,))
+    tnames = sorted(m[0] for m in twin)
+    if not any(n + '_async' in tnames for n in tnames):
+      tcls = ClientProxyBuilder.CreateServiceClient(Twin)
+      tdisp = _Disp()
+      tproxy = tcls(tdisp)
+      if not isinstance(tproxy, Twin):
+        raise Violation(ID, 'proxy-not-instance', 'the client built for a second interface class (same module and name as the first) is not an instance of it')
+      for n in tnames:
+        for form in (n, n + '_async'):
+          if not callable(getattr(tproxy, form, None)) or getattr(tcls, form) is getattr(Twin, form, None):
+            raise Violation(ID, 'proxy-missing-method', 'client of the second interface class lacks / does not intercept %r' % form)
+      ar = AsyncResult()
+      tdisp.next_result = ar
+      if getattr(tproxy, tnames[0] + '_async')() is not ar or tdisp.calls[-1][0] != tnames[0]:
+        raise Violation(ID, 'method-name', 'second interface: %s_async was not dispatched as %r' % (tnames[0], tnames[0]))
   return nontrivial
 
 
